@@ -228,6 +228,30 @@ def case_misc(col, p):
         if not np.array_equal(got, ex):
             col.violation('C08:project:mask_window', dict(p, m=[n // 2, 3], h=[n // 2, 1]), {'masked': int(got.sum()), 'expected': int(ex.sum())})
         col.tick(states=cnt + 1)
+    elif what == 'lowpass_deep':
+        # the low-pass wrapper with every individual deeply covered is the plain projection, for 1-3 populations (incl. equal sizes in pops 2,3)
+        from dadi.LowPass import LowPass as LP
+        cov = np.zeros((2, 81)); cov[0] = np.arange(81); cov[1, 80] = 1.0
+        for nseq, nsub in (((4,), (2,)), ((4, 4), (2, 4)), ((4, 2, 2), (2, 2, 2)), ((2, 4, 4), (2, 2, 4)), ((4, 4, 4), (2, 4, 2))):
+            pops = ['pop%d' % k for k in range(len(nseq))]
+            shape = tuple(x + 1 for x in nseq)
+            data = (1.0 + (np.arange(int(np.prod(shape))) * 7 % 11).reshape(shape)) / 4.0
+            data.flat[0] = 0.0
+
+            def model(params, ns_, pts):
+                return dadi.Spectrum(data.copy(), mask_corners=False)
+            f = LP.make_low_pass_func_GATK_multisample(model, {q: cov for q in pops}, pops, list(nseq), list(nsub), sim_threshold=1e-2, Fx=[0] * len(nseq))
+            try:
+                out = np.asarray(getattr(f(None, list(nsub), None), 'data', None), dtype=float)
+            except Exception as e:
+                col.violation('C08:lowpass:deep_coverage:raises', dict(p, nseq=nseq, nsub=nsub), '%s: %s' % (type(e).__name__, str(e)[:200]))
+                continue
+            col.tick(transitions=1)
+            ex = np.asarray(dadi.Spectrum(data.copy(), mask_corners=False).project(list(nsub)).data)
+            if out.shape != ex.shape or not np.allclose(out, ex, rtol=0, atol=1e-9):
+                col.violation('C08:lowpass:deep_coverage_not_projection', dict(p, nseq=nseq, nsub=nsub),
+                              {'maxdiff': float(np.abs(out - ex).max()) if out.shape == ex.shape else 'shape'})
+        col.tick(states=5)
     col.distinct('nontrivial', ('misc', what, p.get('n')))
 
 
@@ -472,6 +496,7 @@ def run(ctx):
     for n in (5, 12, 40):
         cases.append({'kind': 'misc', 'what': 'neutral_fixed_point', 'n': n})
     cases.append({'kind': 'misc', 'what': 'upward'})
+    cases.append({'kind': 'misc', 'what': 'lowpass_deep'})
     for n in (41, 66, 100, 200):
         cases.append({'kind': 'misc', 'what': 'mask_window', 'n': n})
     cases.append({'kind': 'cache_history', 'depth': 2 if ctx.quick else 3})
